@@ -218,6 +218,12 @@ func (g *AliasGen) New(c gengo.Context) gengo.Generator {
 }
 
 func (g *AliasGen) GenerateAliasType(c gengo.Context, a *types.Alias) error {
+	if g.Inst == nil {
+		// the registered prototype itself must never be used for a package - for alias types either
+		Current.Add(Event{Kind: "prototype-used", Pkg: pkgOf(c), Gen: g.B.Name, Name: a.Obj().Name()})
+		g.Inst = &Instance{B: g.B, Seen: map[string]bool{}}
+	}
+	g.Inst.Calls++
 	Current.Add(Event{Kind: "alias", Pkg: pkgOf(c), Gen: g.B.Name, Name: a.Obj().Name(), Detail: a.Obj().Pkg().Path()})
 	if g.B.OnAlias == nil {
 		return nil
